@@ -318,21 +318,34 @@ impl State {
         Ok(())
     }
 
-    // With append, the file with the latest timestamp is continued; without append, a new file
-    // is started, which must not replace a file that was written in the same second.
+    // Without append, a new file is started, which must not replace a file that was written in
+    // the same second. With append, the newest file with the latest timestamp is continued, which
+    // can be a restart sibling; if the newest one exists only as archive, a new one is started.
     fn infix_for_new_direct_file(
         &self,
         ts: &DateTime<Local>,
         fmt: &InfixFormat,
     ) -> std::io::Result<String> {
         let infix = infix_from_timestamp(ts, self.config.use_utc, fmt);
+        let next_free = self
+            .config
+            .file_spec
+            .collision_free_infix_for_rotated_file(&infix)?;
         if self.config.append {
-            Ok(infix)
-        } else {
-            self.config
-                .file_spec
-                .collision_free_infix_for_rotated_file(&infix)
+            let newest = match next_free
+                .strip_prefix(infix.as_str())
+                .and_then(|s| s.strip_prefix(".restart-"))
+                .and_then(|s| s.parse::<usize>().ok())
+            {
+                None => return Ok(next_free),
+                Some(0) => infix,
+                Some(n) => format!("{infix}.restart-{:04}", n - 1),
+            };
+            if self.config.file_spec.as_pathbuf(Some(&newest)).exists() {
+                return Ok(newest);
+            }
         }
+        Ok(next_free)
     }
 
     #[allow(clippy::too_many_lines)]
